@@ -207,6 +207,8 @@ structure St where
   inTxn : Bool := false
   last : List (Nat × Pts × Pts) := []      -- conn ↦ (displayRoute, route) at the previous processing point
   noopExpected : Bool := false
+  staleSeen : List (Nat × Pts × String) := []   -- (conn, route, class) of stale routes already reported
+  dirty : List Nat := []                   -- obstacles added / moved since the last checked processing point
   lastOp : String := ""
   stats : List (String × Nat) := []
   checkedTxns : Nat := 0
@@ -216,11 +218,21 @@ structure St where
 
 def St.bump (s : St) (k : String) (n : Nat := 1) : St := { s with stats := bumpStats s.stats k n }
 
+/-- rank of a verdict within one history: a property failure outranks a broken tie, and the two
+    classes that are consequences of documented design limitations (a route through two opposite
+    corners, a gain through fewer bends only) rank below every other property failure, so that they
+    cannot mask a different failure later in the same history -/
+def rank : Verdict → Nat
+  | .ok => 0
+  | .diverge _ => 1
+  | .specfail m =>
+    if m.startsWith "invalid-route through-two-corners" || m.startsWith "stale-route not-rerouted-fewer-bends"
+    then 2 else 3
+
 def St.setFail (s : St) (v : Verdict) : St :=
-  match s.fail, v with
-  | none, _ => { s with fail := some v }
-  | some (.diverge _), .specfail _ => { s with fail := some v }     -- a property failure outranks a broken tie
-  | _, _ => s
+  match s.fail with
+  | none => { s with fail := some v }
+  | some old => if rank v > rank old then { s with fail := some v } else s
 
 def lookup {β} (l : List (Nat × β)) (k : Nat) : Option β := (l.find? (·.1 == k)).map (·.2)
 
@@ -262,6 +274,11 @@ def invalidKind (sc : Scene) (r : Pts) : String := Id.run do
           else return s!"through-interior shape={o.id}"
   return "endpoints"
 
+/-- does the segment a–b run exactly through two corners of the rectangle (its diagonal)? -/
+def throughTwoCorners (rc : Rect) (a b : Pt) : Bool :=
+  let corners : List Pt := [⟨rc.x0, rc.y0⟩, ⟨rc.x1, rc.y0⟩, ⟨rc.x1, rc.y1⟩, ⟨rc.x0, rc.y1⟩]
+  (corners.filter fun c => cross a b c == 0 && dot a c b ≥ 0).length ≥ 2
+
 def checkTxn (s : St) : St := Id.run do
   let t := s.txn
   let mut s := { s with txn := {}, inTxn := false }
@@ -274,14 +291,29 @@ def checkTxn (s : St) : St := Id.run do
   s := { s with checkedTxns := s.checkedTxns + 1 }
   s := s.bump "txn.checked"
   -- (a) validity
+  let mut invalid : List Nat := []        -- an invalid route is not compared by cost (a short cut is cheaper)
   for (kind, routes) in [("displayRoute", t.rt), ("route", t.rr)] do
     for (cid, r) in routes do
       match findConn sc cid with
       | some { src := some a, dst := some b, .. } =>
         s := s.bump "routes.validated"
         if !routeValidRect rects (toP a) (toP b) (r.toList.map toP) then
+          invalid := cid :: invalid
           s := s.setFail (.specfail s!"invalid-route {invalidKind sc r} {kind} conn={cid} txn-after-op={s.lastOp}: {showPts r} not a valid route from ({showR a.x},{showR a.y}) to ({showR b.x},{showR b.y}) for the model scene")
       | _ => s := s.setFail (.diverge s!"route printed for connector {cid} whose ends are not both set in the model")
+      -- junction obstacle boxes: the property text speaks of shapes, so a route through a junction box is
+      -- not judged (only counted) - except for the through-two-corners class (same defect as for shapes),
+      -- which otherwise surfaces as a misleading "fresh-worse" cost gap
+      -- (polyline only: orthogonal routes legitimately run through free-floating junction boxes)
+      for (jid, jr) in (if s.orth then [] else junctionRects sc) do
+        for i in [1:r.size] do
+          let a := r[i - 1]!; let b := r[i]!
+          if segHitsOpenRect jr (toP a) (toP b) then
+            if throughTwoCorners (jr.shrink (-tol)) a b then
+              invalid := cid :: invalid
+              s := s.setFail (.specfail s!"invalid-route through-two-corners junction={jid} {kind} conn={cid} txn-after-op={s.lastOp}: {showPts r} runs through the diagonal of the junction's obstacle box")
+            else
+              s := s.bump "routes.through-junction-box-not-judged"
   -- (c) no-op transaction
   if s.noopExpected then
     s := s.bump "noop-txn.checked"
@@ -294,6 +326,7 @@ def checkTxn (s : St) : St := Id.run do
   -- (b) cost against the fresh router
   if t.fresh then
     for (cid, r) in t.rr do
+      if invalid.contains cid then continue
       match lookup t.fr cid with
       | none => s := s.setFail (.diverge s!"no fresh route for connector {cid}")
       | some f =>
@@ -310,7 +343,23 @@ def checkTxn (s : St) : St := Id.run do
             let penOnly := match costEncl s.orth 0 r, costEncl s.orth 0 f with
               | some (ll, _), some (_, fh') => s.pen > 0 && ll ≤ fh' + tol
               | _, _ => false
-            let kind := if changed then "rerouted-worse" else if penOnly then "not-rerouted-fewer-bends-only" else "not-rerouted"
+            -- does the cheaper fresh route have fewer bends and turn at a corner of an obstacle that was
+            -- added / moved in this transaction (a via-vertex the old route could not know)?
+            let newCorners : List Pt := sc.obsts.foldl (fun acc o =>
+              if s.dirty.contains o.id then
+                match (if o.isJ then junctionBox o.geom else rectOfPoly o.geom) with
+                | some rc => [⟨rc.x0, rc.y0⟩, ⟨rc.x1, rc.y0⟩, ⟨rc.x1, rc.y1⟩, ⟨rc.x0, rc.y1⟩] ++ acc
+                | none => acc
+              else acc) []
+            let viaNew := decide (s.pen > (0 : Rat)) && decide (bendUnits f < bendUnits r) &&
+              (f.toList.drop 1).dropLast.any (fun p => newCorners.contains p)
+            let kind := if changed then "rerouted-worse" else if penOnly then "not-rerouted-fewer-bends-only"
+              else if viaNew then "not-rerouted-fewer-bends-via-new-vertex" else "not-rerouted"
+            -- the same unchanged route found stale again at a later processing point keeps its class
+            let kind := match s.staleSeen.find? (fun e => e.1 == cid && e.2.1 == r) with
+              | some e => e.2.2
+              | none => kind
+            s := { s with staleSeen := (cid, r, kind) :: s.staleSeen }
             s := s.setFail (.specfail s!"stale-route {kind} conn={cid} after-op={s.lastOp} incremental-cost={showR il} fresh-cost={showR fh} incremental: {showPts r} fresh: {showPts f}")
           else if fl > ih + tol then
             s := s.setFail (.specfail s!"fresh-worse conn={cid} after-op={s.lastOp} incremental-cost={showR ih} fresh-cost={showR fl} incremental: {showPts r} fresh: {showPts f}")
@@ -323,15 +372,19 @@ def checkTxn (s : St) : St := Id.run do
     for e in t.ve do
       s := s.bump "graph.vis-edges"
       if !(vertexOk sc s.orth e.o1 e.vn1 e.c1 e.p1 && vertexOk sc s.orth e.o2 e.vn2 e.c2 e.p2) then
-        s := s.setFail (.diverge s!"stale-graph: visibility edge ({e.o1},{e.vn1})-({e.o2},{e.vn2}) refers to a deleted object or an outdated position")
+        s := s.setFail (.diverge s!"stale-graph dangling-vertex: visibility edge ({e.o1},{e.vn1})-({e.o2},{e.vn2}) refers to a deleted object or an outdated position")
       else if rects.any (fun r => segHitsOpenRect r (toP e.p1) (toP e.p2)) then
-        s := s.setFail (.diverge s!"stale-graph: visibility edge ({e.o1},{e.vn1})-({e.o2},{e.vn2}) ({showR e.p1.x},{showR e.p1.y})-({showR e.p2.x},{showR e.p2.y}) passes through a shape of the current scene")
+        let diag := rects.any fun r => segHitsOpenRect r (toP e.p1) (toP e.p2) && throughTwoCorners (r.shrink (-tol)) e.p1 e.p2
+        let cls := if diag then "stale-graph through-two-corners" else "stale-graph blocked-edge"
+        s := s.setFail (.diverge s!"{cls}: visibility edge ({e.o1},{e.vn1})-({e.o2},{e.vn2}) ({showR e.p1.x},{showR e.p1.y})-({showR e.p2.x},{showR e.p2.y}) passes through a shape of the current scene")
       else if !s.orth && jrs.any (fun (jid, r) => jid != e.o1 && jid != e.o2 && segHitsOpenRect r (toP e.p1) (toP e.p2)) then
-        s := s.setFail (.diverge s!"stale-graph: visibility edge ({e.o1},{e.vn1})-({e.o2},{e.vn2}) passes through a junction box of the current scene")
+        let diag := jrs.any fun (jid, r) => jid != e.o1 && jid != e.o2 && segHitsOpenRect r (toP e.p1) (toP e.p2) && throughTwoCorners (r.shrink (-tol)) e.p1 e.p2
+        let cls := if diag then "stale-graph through-two-corners" else "stale-graph blocked-edge"
+        s := s.setFail (.diverge s!"{cls}: visibility edge ({e.o1},{e.vn1})-({e.o2},{e.vn2}) ({showR e.p1.x},{showR e.p1.y})-({showR e.p2.x},{showR e.p2.y}) passes through a junction box of the current scene")
     for e in t.ie do
       s := s.bump "graph.invis-edges"
       if !(vertexOk sc s.orth e.o1 e.vn1 e.c1 e.p1 && vertexOk sc s.orth e.o2 e.vn2 e.c2 e.p2) then
-        s := s.setFail (.diverge s!"stale-graph: invisibility edge ({e.o1},{e.vn1})-({e.o2},{e.vn2}) refers to a deleted object or an outdated position")
+        s := s.setFail (.diverge s!"stale-graph dangling-vertex: invisibility edge ({e.o1},{e.vn1})-({e.o2},{e.vn2}) refers to a deleted object or an outdated position")
       else if e.blocker > 0 then
         match findObst sc e.blocker.toNat with
         | some ob =>
@@ -340,15 +393,15 @@ def checkTxn (s : St) : St := Id.run do
           match box with
           | some r =>
             if !ob.active || !segHitsOpenRect (r.shrink (-tol)) (toP e.p1) (toP e.p2) then
-              s := s.setFail (.diverge s!"stale-graph: invisibility edge ({e.o1},{e.vn1})-({e.o2},{e.vn2}) names blocker {e.blocker} which does not touch it in the current scene")
+              s := s.setFail (.diverge s!"stale-graph stale-blocker: invisibility edge ({e.o1},{e.vn1})-({e.o2},{e.vn2}) names blocker {e.blocker} which does not touch it in the current scene")
           | none => pure ()
-        | none => s := s.setFail (.diverge s!"stale-graph: invisibility edge ({e.o1},{e.vn1})-({e.o2},{e.vn2}) names deleted blocker {e.blocker}")
+        | none => s := s.setFail (.diverge s!"stale-graph stale-blocker: invisibility edge ({e.o1},{e.vn1})-({e.o2},{e.vn2}) names deleted blocker {e.blocker}")
   -- remember routes
   let last := t.rt.filterMap fun (cid, d) => (lookup t.rr cid).map fun r => (cid, d, r)
-  return { s with last := last, noopExpected := false }
+  return { s with last := last, noopExpected := false, dirty := [] }
 
 def stepLine (s : St) (l : Array String) : St :=
-  if s.fail.isSome && (match s.fail with | some (.specfail _) => true | _ => false) then s else
+  if (match s.fail with | some v => decide (rank v ≥ 3) | none => false) then s else
   let key := l[0]?.getD ""
   let rest := l.extract 1 l.size
   match key with
@@ -366,7 +419,10 @@ def stepLine (s : St) (l : Array String) : St :=
         let noop := match op with
           | .processTransaction => s.model.queue.isEmpty
           | _ => false
-        { s with model := step s.model op, noopExpected := noop, lastOp := opName op }
+        let dirty := match op with
+          | .addObst _ id _ | .moveAbs _ id _ _ | .moveRel _ id _ _ => id :: s.dirty
+          | _ => s.dirty
+        { s with model := step s.model op, noopExpected := noop, lastOp := opName op, dirty := dirty }
   | "os" =>
     match parsePts rest 3 with
     | some g => { s with obsO := { id := nat! (rest[0]?.getD "0"), isJ := rest[1]?.getD "0" == "1",
